@@ -30,6 +30,7 @@ pub struct Ctx {
     pub out_rsp_delta: u64,      // 0x1D0
     pub out_stack: [u64; 16],    // 0x1D8
     pub scratch_rsp: u64,        // 0x258
+    pub r10: u64,                // 0x260 static chain register as set by the caller
 }
 
 #[repr(C)]
@@ -47,6 +48,8 @@ pub struct FakeRec {
     pub ret_xmm0: [u64; 2],  // 0x180
     pub ret_xmm1: [u64; 2],  // 0x190
     pub hits: u64,           // 0x1A0
+    pub r10: u64,            // 0x1A8 static chain register seen on entry
+    pub rflags: u64,         // 0x1B0 flags seen on entry
 }
 
 #[no_mangle]
@@ -114,6 +117,7 @@ probe_call:
     mov rcx, [r11 + 0x20]
     mov r8,  [r11 + 0x28]
     mov r9,  [r11 + 0x30]
+    mov r10, [r11 + 0x260]
     mov rax, [r11 + 0x00]
     call rax
 probe_call_ret_site:
@@ -178,6 +182,10 @@ probe_fake:
     mov [r11 + 0x50], r14
     mov [r11 + 0x58], r15
     mov [r11 + 0x60], rsp
+    mov [r11 + 0x1A8], r10
+    pushfq
+    pop rax
+    mov [r11 + 0x1B0], rax
     mov rax, [rsp]
     mov [r11 + 0x68], rax
     xor rcx, rcx
@@ -276,6 +284,8 @@ pub fn ctx_from(r: &RegFile, target: u64) -> Box<Ctx> {
         let x = r.xmm.get(i).copied().unwrap_or((0, 0));
         c.xmm[i] = [x.0, x.1];
     }
+    // (derived, so that earlier replay files keep their meaning)
+    c.r10 = (r.args[0] ^ r.callee[0]).rotate_left(17) ^ 0x5A5A_1010_A5A5_0101;
     c
 }
 
